@@ -265,8 +265,15 @@ func (c *cfgFloat) cpy(ctx context) value                   { return newFloat(ct
 func (c *cfgFloat) toFloat(*options) (float64, error)       { return c.f, nil }
 func (c *cfgFloat) reflect(*options) (reflect.Value, error) { return reflect.ValueOf(c.f), nil }
 func (c *cfgFloat) reify(*options) (interface{}, error)     { return c.f, nil }
-func (c *cfgFloat) toString(*options) (string, error)       { return fmt.Sprintf("%v", c.f), nil }
-func (c *cfgFloat) typ(*options) (typeInfo, error)          { return typeInfo{"float", tFloat64}, nil }
+func (c *cfgFloat) toString(*options) (string, error) {
+	// integral values print like the integer they are: the front-ends that
+	// deliver every number as float64 must not turn 1000000 into "1e+06"
+	if c.f == math.Trunc(c.f) && math.Abs(c.f) < 1e21 {
+		return strconv.FormatFloat(c.f, 'f', 0, 64), nil
+	}
+	return fmt.Sprintf("%v", c.f), nil
+}
+func (c *cfgFloat) typ(*options) (typeInfo, error) { return typeInfo{"float", tFloat64}, nil }
 
 func (c *cfgFloat) toUint(*options) (uint64, error) {
 	if c.f < 0 {
